@@ -9,6 +9,8 @@
                                  removed) and the number of parameters that have a default -- what
                                  `_instantiate_data_type` derives its positional / keyword rules from
 * `feCanonicalStrip`             the characters `_get_base_name` removes from an item name and from a namespace name
+* `feCanonicalSep`               the string literal(s) `_get_base_name` puts between the two parts (concatenated; "" if
+                                 the parts are joined directly)
 
 Python `ast` only; nothing is imported from the tree.
 """
@@ -81,8 +83,17 @@ def fe_builtin_types(repo):
         sigs.append('(%s, (%s, %d))' % (lean_str(n), lean_list(lean_str(p) for p in params), ndef))
     # _get_base_name: the `.replace(x, '')` chains on `input_str` and on `namespace_name`
     strip = {'input_str': [], 'namespace_name': []}
+    sep = []
     for node in ast.walk(gen):
         if isinstance(node, ast.FunctionDef) and node.name == '_get_base_name':
+            # the returned `a + 'lit' + b` chain: string constants that are direct operands of `+`
+            def operands(e):
+                if isinstance(e, ast.BinOp) and isinstance(e.op, ast.Add):
+                    return operands(e.left) + operands(e.right)
+                return [e]
+            for ret in ast.walk(node):
+                if isinstance(ret, ast.Return) and ret.value is not None:
+                    sep += [o.value for o in operands(ret.value) if isinstance(o, ast.Constant) and isinstance(o.value, str)]
             for call in ast.walk(node):
                 if isinstance(call, ast.Call) and isinstance(call.func, ast.Attribute) and call.func.attr == 'replace' \
                         and len(call.args) == 2 and isinstance(call.args[1], ast.Constant) and call.args[1].value == '':
@@ -98,4 +109,5 @@ def fe_builtin_types(repo):
         'def feCanonicalStrip : List String × List String := (%s, %s)' % (
             lean_list(lean_str(c) for c in sorted(strip['input_str'])),
             lean_list(lean_str(c) for c in sorted(strip['namespace_name']))),
+        'def feCanonicalSep : String := %s' % lean_str(''.join(sep)),
     ])
